@@ -30,7 +30,7 @@ func runC02(x *mc.X) {
 	validators := mc.Pick(x, "stored.validators", []string{"etag", "lm", "both", "none"})
 	elapsed := mc.Pick(x, "elapsed", []int64{2, 10, 20})
 	reqDir := mc.Pick(x, "req.directive", c02ReqDirs)
-	answerKind := mc.Pick(x, "origin.answer", []string{"304", "304+fields", "200", "500", "503", "error", "304+no-cache", "200-same-etag"})
+	answerKind := mc.Pick(x, "origin.answer", []string{"304", "304+fields", "200", "500", "503", "error", "304+no-cache", "200-same-etag", "304+no-cache on a second line"})
 	// the client's own preconditions: an entity-tag the origin does not have, one that the origin considers current
 	// (a copy the client holds, which says nothing about the copy this cache holds), an old date
 	clientCond := mc.Pick(x, "client.preconditions", []string{"", "if-none-match other", "if-none-match current", "if-modified-since old"})
@@ -76,7 +76,7 @@ func runC02(x *mc.X) {
 			cond = hasLM && ims == lm
 		}
 		switch answerKind {
-		case "304", "304+fields", "304+no-cache":
+		case "304", "304+fields", "304+no-cache", "304+no-cache on a second line":
 			if !cond {
 				return o.Respond(c, RS{Status: 200, H: H("Cache-Control", "max-age=10", "ETag", `"etag-v2"`)}), nil
 			}
@@ -86,6 +86,9 @@ func runC02(x *mc.X) {
 			}
 			if answerKind == "304+no-cache" {
 				hh = append(hh, [2]string{"Cache-Control", "max-age=1000, no-cache"})
+			}
+			if answerKind == "304+no-cache on a second line" { // two field lines are one list (RFC 9110 §5.3)
+				hh = append(hh, [2]string{"Cache-Control", "max-age=1000"}, [2]string{"Cache-Control", "no-cache"})
 			}
 			return o.Respond(c, RS{Status: 304, NoTok: true, H: hh}), nil
 		case "200":
@@ -172,7 +175,7 @@ func runC02(x *mc.X) {
 	if clientCond != "" && o2.Err == nil && o2.Status == 304 && len(o2.Calls) == 1 && o2.Calls[0].RespCode == 304 && !hasETag && !hasLM {
 		return // the origin's 304 to the client's own precondition, passed on
 	}
-	if answerKind == "304+no-cache" && validated304 && o2.Err == nil && o2.Tok == o1.Tok {
+	if strings.HasPrefix(answerKind, "304+no-cache") && validated304 && o2.Err == nil && o2.Tok == o1.Tok {
 		// the 304 made the stored response "no-cache": a further plain request must be validated again
 		world.Advance(secs(1))
 		o3 := w.Do(world.Req("GET", U, "X-Client", "c2", "Accept", "text/x-verif"))
